@@ -222,7 +222,17 @@ def spectral_density_addition(cx, units, ub_at=2):
             acc = qr.SpectralDensity(wa, comps[0].params)
         acc += comps[1]
         acc += comps[2]
+        # self-addition, single and composed
+        with qr.energy_units("int"):
+            twice = qr.SpectralDensity(wa, comps[0].params)
+        twice += twice
+        ctwice = comps[0] + comps[1]
+        ctwice += ctwice
     cx.assume_denominators_nonzero("positive parameters")
+    cx.prove_eq("self_addition/data", twice.data, 2 * datas[0], tol=1e-7)
+    cx.prove_eq("self_addition/lamb", twice.lamb, 2 * comps[0].lamb, tol=1e-9)
+    cx.prove_eq("composed_self_addition/data", ctwice.data, 2 * (datas[0] + datas[1]), tol=1e-7)
+    cx.prove_eq("composed_self_addition/lamb", ctwice.lamb, 2 * (comps[0].lamb + comps[1].lamb), tol=1e-9)
     for name, f in (("left", left), ("right", right), ("inplace", acc)):
         cx.prove_eq(name + "/data", f.data, total, tol=1e-7)
         cx.prove_eq(name + "/lamb", f.lamb, ltot, tol=1e-9)
